@@ -219,7 +219,12 @@ pub fn build2(a: &OwnedTerm, b: &OwnedTerm) -> Vec<OwnedTerm> {
 }
 
 pub fn build1(a: &OwnedTerm) -> Vec<OwnedTerm> {
-    vec![OwnedTerm::List(vec![a.clone()]), OwnedTerm::Tuple(vec![a.clone()]), internal_fun(1, 1, 2, 3, vec![a.clone()])]
+    // the last one is the degenerate improper list (no elements): its value is its tail
+    let mut out = vec![OwnedTerm::List(vec![a.clone()]), OwnedTerm::Tuple(vec![a.clone()]), internal_fun(1, 1, 2, 3, vec![a.clone()])];
+    if !is_listy(a) {
+        out.push(OwnedTerm::ImproperList { elements: vec![], tail: Box::new(a.clone()) });
+    }
+    out
 }
 
 pub fn build3(a: &OwnedTerm, b: &OwnedTerm, c: &OwnedTerm) -> Vec<OwnedTerm> {
